@@ -39,9 +39,35 @@ type dbState struct {
 	rs        *resultSet
 	queryErr  bool
 	cancel    func() // when set, the failing call cancels the context instead of returning a driver error
+	faultKind int    // which error value the failing call returns (see faultErr)
 }
 
 var errInjected = errors.New("injected driver fault")
+
+// faultErr: the error a failing driver call returns. A failed step is a failed step whatever its error value
+// looks like: errors that wrap context errors although the caller's context is live (a driver-side timeout),
+// bad-connection errors, and the database/sql sentinels are all plausible driver results.
+func (s *dbState) faultErr(kind string) error {
+	switch s.faultKind {
+	case 1:
+		return fmt.Errorf("driver: statement timed out: %w", context.DeadlineExceeded)
+	case 2:
+		return fmt.Errorf("driver: operation aborted: %w", context.Canceled)
+	case 3:
+		if kind != "B" { // database/sql itself retries a Begin that reports a bad connection
+			return driver.ErrBadConn
+		}
+	case 4:
+		return sql.ErrTxDone
+	case 5:
+		return io.EOF
+	case 6:
+		// (sql.ErrNoRows is deliberately absent: QueryRow().Scan() reports "no rows" by that very value, so a driver
+		// returning it from the existence query IS the answer "table absent", not a failed step)
+		return context.Canceled
+	}
+	return errInjected
+}
 
 // nextFailExists makes Rows.Next of the table-existence query fail (set around one scenario run)
 var nextFailExists bool
@@ -84,7 +110,7 @@ func (c *recConn) Close() error                          { return nil }
 func (c *recConn) Begin() (driver.Tx, error)             { return c.BeginTx(context.Background(), driver.TxOptions{}) }
 func (c *recConn) BeginTx(ctx context.Context, _ driver.TxOptions) (driver.Tx, error) {
 	if !c.st.record("B", "", nil) {
-		return nil, errInjected
+		return nil, c.st.faultErr("B")
 	}
 	c.inTx = true
 	return &recTx{st: c.st, conn: c}, nil
@@ -95,7 +121,7 @@ func (c *recConn) ExecContext(ctx context.Context, q string, args []driver.Named
 		kind = "EA"
 	}
 	if !c.st.record(kind, q, args) {
-		return nil, errInjected
+		return nil, c.st.faultErr(kind)
 	}
 	return driver.RowsAffected(0), nil
 }
@@ -105,7 +131,7 @@ func (c *recConn) QueryContext(ctx context.Context, q string, args []driver.Name
 		kind = "QA"
 	}
 	if !c.st.record(kind, q, args) {
-		return nil, errInjected
+		return nil, c.st.faultErr(kind)
 	}
 	if c.st.rs != nil {
 		if c.st.queryErr {
@@ -136,14 +162,14 @@ type recTx struct {
 func (t *recTx) Commit() error {
 	t.conn.inTx = false
 	if !t.st.record("C", "", nil) {
-		return errInjected
+		return t.st.faultErr("C")
 	}
 	return nil
 }
 func (t *recTx) Rollback() error {
 	t.conn.inTx = false
 	if !t.st.record("RB", "", nil) {
-		return errInjected
+		return t.st.faultErr("RB")
 	}
 	return nil
 }
